@@ -16,6 +16,8 @@ use std::collections::HashSet;
 
 pub const PROP: &str = "C07";
 const DEFAULT_BACKTRACK_LIMIT: usize = 1_000_000;
+/// a search that never holds more than this many alternatives must not overflow a default stack
+const TINY_DEPTH: usize = 10_000;
 
 #[derive(Clone, Copy, Debug, PartialEq, Eq)]
 pub enum Api {
@@ -345,6 +347,16 @@ pub fn check_case(re: &Regex, case: &Case, cap: usize, with_builder: bool, rng: 
         }
         Outcome::Err(ErrKind::StackOverflow) => {
             st.heavy_default_limit_hit += 1;
+            // "with default limits a search whose exploration is tiny never reports
+            // StackOverflow": whatever the default capacity is, a search that never had more than
+            // TINY_DEPTH alternatives alive is tiny in the only sense that matters for the stack.
+            if rs.peak_depth < TINY_DEPTH {
+                return found(
+                    "so-on-tiny-search",
+                    format!("StackOverflow with default limits although at most {} alternatives were ever alive (capacity in force: {})", rs.peak_depth, rs.max_stack),
+                    None,
+                );
+            }
             if rs.pushes_refused == 0 || rs.refused_at_depth != rs.max_stack {
                 return found(
                     "so-illegitimate",
